@@ -15,7 +15,7 @@ CHECKS = {
             "DESIGN.md 3 C03"),
     "C02": ("exploration",
             "runtime monitoring: instrumented pipeline stages (start/end records, byte counts, FNV hashes), shell snapshot by the follow-up command; offline checker for exactly-once, per-link conservation, ordering, leftover children, status; /proc deadlock diagnosis under a watchdog",
-            "All finishing orders for n<=4 stages are forced and observed with payloads up to 1 MiB; exit codes, signals and non-reading/failing stages in every position sampled. Held = held on the executions observed.",
+            "All finishing orders for n<=4 stages are forced and observed with payloads up to 1 MiB; exit codes, signals and non-reading/failing stages in every position, an earlier background job ending meanwhile and pipelines run after other commands of the same shell are sampled; every stage's wiring (one pipe per link, the shell's descriptors at the ends, nothing else open) and inherited SIGPIPE disposition are read from its start record. Held = held on the executions observed.",
             "trusts the stage helpers' byte counting/hashing; a hang is a violation only with a /proc deadlock diagnosis",
             "DESIGN.md 3 C02"),
     "C04": ("exploration",
@@ -25,7 +25,7 @@ CHECKS = {
             "DESIGN.md 3 C04"),
     "C08": ("fault_enumeration",
             "runtime monitoring: every spawned helper reports its inherited descriptors; vp_snap snapshots /proc/<shell>/fd between commands; fault enumeration of RLIMIT_NOFILE 4..40 via the ulimit builtin",
-            "Every RLIMIT_NOFILE value 4..40 is injected before 6 pipeline shapes; random command sequences are run with a quiescent snapshot of the shell's table after every command and a descriptor report from every child.",
+            "Every RLIMIT_NOFILE value 4..40 is injected before 13 command shapes (the resource on the first, a middle or the last stage, inside a substitution, on a builtin alone); random command sequences (pipelines, redirections, builtins, substitutions, here-strings, failures, background jobs, source / functions / read / lists) are run with a quiescent snapshot of the shell's table after every command and a descriptor report from every child.",
             "trusts /proc/<pid>/fd and the helpers' fcntl scan; programs that never reach main are not observed in quick",
             "DESIGN.md 3 C08"),
     "C01": ("exploration",
@@ -40,17 +40,17 @@ CHECKS = {
             "DESIGN.md 3 C10"),
     "C12": ("exploration",
             "runtime monitoring: observer argv in prepared directory populations compared with a reference expander (brace product, inclusive range, HOME, sorted non-hidden matches); failing lines reduced to the single failing word",
-            "Random brace terms from a grammar, ranges over boundary bounds, tilde forms and glob patterns against 5 directory populations, each next to quoted neighbours, executed by the real binary.",
+            "Random brace terms from a grammar, ranges over boundary bounds (with escaped blanks around them), tilde forms (incl. a second ~ later in the word) and glob patterns against 5 directory populations, each next to quoted neighbours, as a command's arguments and as the word list of a script `for`, executed by the real binary.",
             "reference expander in lib/c12.py; one expansion kind per word; words expanding to an empty word not generated",
             "DESIGN.md 3 C12"),
     "C11": ("exploration",
             "runtime monitoring: inner observer vp_out logs one record per run (exactly-once) and emits prepared stdout/stderr/status; outer observer records the resulting word; shell snapshots before/after; step-budget hook for termination",
-            "Random words with 1..3 substitutions in 5 contexts, 8 inner-command kinds and 17 output classes are executed and compared with prefix+output-minus-trailing-newlines+suffix; stderr pass-through, exactly-once and shell state are checked on every run.",
+            "Random words with 1..3 substitutions in 5 contexts, 10 inner-command kinds (incl. a substitution of the other spelling inside, and quoted arguments containing ) ( \\ and quotes) and 17 output classes are executed and compared with prefix+output-minus-trailing-newlines+suffix; stderr pass-through, exactly-once, the inner command's own argv and shell state are checked on every run.",
             "unquoted results compared modulo blank/newline runs",
             "DESIGN.md 3 C11"),
     "C13": ("exploration",
             "runtime monitoring: observer records argv, identity of its fds 0/1/2 and its parent; directory listing before/after; any further helper record is an extra command",
-            "The finite product value-class x delivery ($V, ${V}, assigned, $(), backquotes, * match) x quoting x position x neighbouring-word tag is enumerated completely (6.8k executions); thorough adds 20k random operator mixes.",
+            "The finite product value-class x delivery ($V, ${V}, assigned, $(), backquotes, * match) x quoting x position (first/middle/last argument, command word) x neighbouring-word tag, and again next to a genuine < f / <<< w / > f on the same command, is enumerated completely (10k executions); thorough adds 20k random operator mixes.",
             "unquoted results compared modulo blank runs",
             "DESIGN.md 3 C13"),
     "C09": ("exploration",
@@ -60,7 +60,7 @@ CHECKS = {
             "DESIGN.md 3 C09"),
     "C19": ("exploration",
             "runtime monitoring of two builds (overflow checks on / off): stdout+status of `-c EXPR` and observer argv of `$(EXPR)` compared with an exact reference evaluator and a PEG-equivalent reference parser; panic/abort detection",
-            "Random expression trees over i64-boundary operands, all operator pairs, every boundary-operand pair per operator, and every classified string of length<=4 (thorough 5) over the arithmetic alphabet are evaluated by both builds.",
+            "Random expression trees over i64-boundary operands and decimals that are not exact in binary, all operator pairs, every boundary-operand pair per operator, every pair of + - * / over inexact decimals (compared bit-exactly), blanks around the expression and both substitution spellings, and every classified string of length<=4 (thorough 5) over the arithmetic alphabet are evaluated by both builds.",
             "where an intermediate leaves i64 only absence of a crash is demanded; $(EXPR) used only for parenthesis-free expressions",
             "DESIGN.md 3 C19"),
     "C14": ("exploration",
@@ -100,12 +100,12 @@ CHECKS = {
             "DESIGN.md 3 C07"),
     "C05": ("exploration",
             "runtime monitoring in three layers: exhaustive in-process sweep of all pure stages under catch_unwind with a step budget on the rewrite loops (hook), generated/mutated lines through the real binary (two builds) under a watchdog with /proc hang diagnosis and a sentinel command, random key sequences through a pty followed by a sentinel command",
-            "All strings of length<=5 (thorough 6) over a 14-symbol special alphabet and all sequences of <=4 (5) fragments of two further alphabets go through every pure stage; 5k (60k) generated lines and 96 (1000) pty sessions go through the real shell.",
+            "All strings of length<=5 (thorough 6) over a 14-symbol special alphabet and all sequences of <=4 (5) fragments of three further alphabets (operators/arithmetic, multi-byte letters, backslash x every kind of blank) go through every pure stage under catch_unwind, a step budget and a per-input SIGALRM watchdog; 5k (60k) generated lines and 96 (1000) pty sessions go through the real shell.",
             "step budget 2000/3000 iterations = non-termination; hang is a violation only with a /proc diagnosis",
             "DESIGN.md 3 C05"),
     "C20": ("exploration",
             "runtime monitoring: live pty sessions typing a prefix + TAB + Enter in generated directories with an observer recording the argv finally received; in-process companion (hook exports) emulating the editor's splice for every short name in three quoting contexts and checking candidate sets",
-            "Every name of length<=2 (thorough 3) over a 30-symbol special alphabet x {unquoted, open double quote, open single quote} x {file, directory} goes through word-start + complete_path + splice + planning in-process; 240 (2500) generated directory populations are exercised through a real pty.",
+            "Every name of length<=2 (thorough 3) over a 30-symbol special alphabet x {unquoted, open double quote, open single quote} x {file, directory} goes through word-start + complete_path + splice + list splitting + planning in-process; 520 (5200) generated directory populations are exercised through a real pty: entries in the current directory, inside a specially named sub-directory, and directories after `cd` next to a file sharing the prefix.",
             "prefixes typed as cicada's tokenizer reads them back; untypable prefixes skipped and counted",
             "DESIGN.md 3 C20"),
 }
